@@ -57,8 +57,8 @@ fn g_config(ch: &mut Chooser) -> (Lx, NT) {
     let rg = ch.pick("resource-globals", &["none", "one"], 1);
     let mut rglobals = vec![];
     if rg == 1 {
-        lx.words("VAR_GLOBAL R : INT ; END_VAR");
-        rglobals.push(gv(s("R"), "Unspecified", tref("INT", NT::Nil)));
+        lx.words("VAR_GLOBAL RG : INT ; END_VAR");
+        rglobals.push(gv(s("RG"), "Unspecified", tref("INT", NT::Nil)));
     }
     // tasks
     let t = ch.pick("tasks", &["interval", "none", "priority-only", "two", "interval-fraction", "priority-0"], 1);
@@ -142,12 +142,12 @@ fn g_config(ch: &mut Chooser) -> (Lx, NT) {
                     sources.push(src(ref_("a"), ev(None, "G")));
                 }
                 6 => {
-                    lx.id("a").op(":=").id("res").p(".").id("R");
-                    sources.push(src(ref_("a"), gref(Some("res"), "R", None)));
+                    lx.id("a").op(":=").id("res").p(".").id("RG");
+                    sources.push(src(ref_("a"), gref(Some("res"), "RG", None)));
                 }
                 7 => {
-                    lx.id("a").op(":=").id("res").p(".").id("R").p(".").id("x");
-                    sources.push(src(ref_("a"), gref(Some("res"), "R", Some("x"))));
+                    lx.id("a").op(":=").id("res").p(".").id("RG").p(".").id("x");
+                    sources.push(src(ref_("a"), gref(Some("res"), "RG", Some("x"))));
                 }
                 8 => {
                     lx.id("a").op(":=").addr("%IX1");
